@@ -91,7 +91,13 @@ def r19_1(ctx):
     ctx.begin("R19.1", "encoder transducer tables: emit on change into the previous state's list, exact tuples, flush, prologue", floor=4)
     tables = {}
     for cls, enum, lmap, init_prev in ENCODERS:
-        f, pre, lp, post = encoder_parts(ctx, cls)
+        try:
+            f, pre, lp, post = encoder_parts(ctx, cls)
+        except AnalysisError as e:
+            # the run-length encoding lives elsewhere (a shared helper): no cell table; R19.1b decides this encoder as a black box
+            ctx.note(f"{cls} encoder is not one loop over the state log in the method itself ({e}): cell table skipped, see R19.1b")
+            ctx.instance(construct(ctx.repo.method(cls, "get_time_list_for_gannt_chart"), "encoder:black-box-only"))
+            continue
         con0 = construct(f, "encoder")
         members = list(ctx.repo.enums[enum])
         # (every member the enum declares: a log may hold members the simulator itself never writes -- a hand-made or imported log)
